@@ -3,7 +3,8 @@
    Model: Shape/Chain.v (parse_tree_builder.py as coded), specification: Shape/Spec.v. *)
 From Coq Require Import String Ascii List Bool Arith.
 From LV Require Import Base.Prelude Shape.Chain Shape.Spec Shape.Chain_proofs Shape.Shape_proofs
-  Shape.Ebnf Shape.Ebnf_proofs.
+  Shape.Ebnf Shape.Ebnf_proofs Cfg.Grammar Forest.Sppf Forest.Prio Forest.ExplicitBuild
+  Shape.EarleyLeg Shape.EarleyLeg_proofs Shape.Cnf Shape.Cnf_proofs.
 Import ListNotations.
 Local Open Scope string_scope.
 
@@ -66,6 +67,88 @@ Theorem C03_shape_total mp d : wf_dtree mp d = true -> exists t, shape mp d = So
 Proof. exact (shape_total mp d). Qed.
 Print Assumptions C03_shape_total.
 
+(* Earley, ambiguity='resolve'.  [s] is the forest (sharing unfolded) rooted at (start, i, j), an
+   unfolding of the forest F as built, whose families all have the local form of an add_family
+   call (C04 layer A).  ForestToParseTree in resolve mode, calling lark's chain callback of the rule
+   at every completed family it keeps (EarleyLeg.earley_resolve), returns exactly [shape] of one
+   derivation stored in the forest (the one C05 characterises), and that derivation is a
+   well-formed derivation of the compiled grammar whose lexemes tile the input from i to j.
+   Rule ids are indices into the table of rule records; nt_ix / t_ix number the symbol names. *)
+Theorem C03_earley_resolve_is_shape_of_derivation
+        (rules : list rrec) (mp : bool) (nt_ix t_ix : string -> nat)
+        (F : nlabel EarleyLeg.lexeme -> family EarleyLeg.lexeme -> Prop) tlen occurs s a i j :
+  Forall (fun r => rule_wf r mp = true /\ inline_ok r = true) rules ->
+  (forall x y, nt_ix x = nt_ix y -> x = y) -> (forall x y, t_ix x = t_ix y -> x = y) ->
+  (forall lbl f, F lbl f -> fam_ok (cfg_grammar rules nt_ix t_ix) EarleyLeg.lexeme (lx_match t_ix) tlen occurs lbl f) ->
+  wfb s = true -> unf rules nt_ix t_ix F s (NSym EarleyLeg.lexeme a i j) ->
+  exists t,
+    resolve s = [t] /\
+    wfd (cfg_grammar rules nt_ix t_ix) EarleyLeg.lexeme (lx_match t_ix) (to_dt rules nt_ix t_ix t) (NT a) /\
+    tiles EarleyLeg.lexeme tlen occurs i j (yield EarleyLeg.lexeme (to_dt rules nt_ix t_ix t)) /\
+    wf_dtree mp (to_dtree rules t) = true /\
+    earley_resolve rules mp s = option_map (fun v => [v]) (shape mp (to_dtree rules t)).
+Proof.
+  intros Ht Hn Htx HF. exact (earley_resolve_is_shape_of_derivation rules mp Ht nt_ix t_ix Hn Htx F tlen occurs HF s a i j).
+Qed.
+Print Assumptions C03_earley_resolve_is_shape_of_derivation.
+
+(* CYK.  [cnf_of] applies TERM, BIN and UNIT to a derivation tree (the CNF pre-image); [revert] is
+   revert_cnf with unroll_unit_skiprule, [to_otree] is Parser._to_tree (original rule = the alias).
+   Every derivation of the original grammar has a CNF pre-image with the same yield whose
+   reversion is that derivation, and the tree CYK returns for that parse (rule callbacks applied
+   bottom-up) is [shape] of the derivation. *)
+Theorem C03_cnf_roundtrip_partial rules d : wf_otree rules d = true ->
+  to_otree (revert (cnf_of rules d)) = Some d /\ cyield (cnf_of rules d) = oyield d.
+Proof. exact (fun H => conj (cnf_roundtrip_complete rules d H) (cnf_roundtrip_yield rules d H)). Qed.
+Print Assumptions C03_cnf_roundtrip_partial.
+
+Theorem C03_cyk_is_shape rules mp d :
+  Forall (fun r => rule_wf r mp = true /\ inline_ok r = true) rules ->
+  wf_otree rules d = true ->
+  cyk_result rules mp (cnf_of rules d) = shape mp (o_dtree rules d).
+Proof. exact (fun Ht => cyk_is_shape rules mp Ht d). Qed.
+Print Assumptions C03_cyk_is_shape.
+
+(* Open (_partial): (1) grammar level - every tree cyk._parse can build over the rules of
+   to_cnf(G) is the pre-image of a derivation of G, and every pre-image is such a tree.  Not a
+   theorem; on every run the harness compares lark's CNF grammar with [to_cnf] (as sets) and checks,
+   for every CYK parse, that lark's CNF tree equals [cnf_of] of the reverted derivation, so the
+   theorems above apply to each observed parse. *)
+Definition C03_cnf_roundtrip_full_statement : Prop :=
+  forall rules fuel g, to_cnf fuel rules = Ok g ->
+    (forall c n, cder g c (CN (NOrig n)) ->
+       exists d, wf_otree rules d = true /\ c = cnf_of rules d /\ to_otree (revert c) = Some d /\ oyield d = cyield c) /\
+    (forall rid ch, wf_otree rules (ONode rid ch) = true ->
+       Forall (fun r => r_exp r <> []) rules ->
+       cder g (cnf_of rules (ONode rid ch)) (CN (NOrig (r_origin (rule_n rules rid))))).
+
+(* engines agree: whatever derivation d of the input the engines follow, each returns shape(d):
+   LALR's value-stack driver along d, CYK on the CNF pre-image of d, Earley's resolve-mode walk on a
+   forest whose selected derivation is d.  With a unique derivation of the input these are the same
+   d.  _partial: that LALR's table driver follows a derivation of the input is C02's driver
+   theorem; that CYK's chart parse is the pre-image is (1) above; that lark's SPPF is an unfolding of
+   a forest of add_family-shaped families whose stored derivations are all derivations is C04
+   layer A (C03_earley_resolve_is_shape_of_derivation composes it). *)
+Theorem C03_engines_agree_partial rules mp d s ts :
+  Forall (fun r => rule_wf r mp = true /\ inline_ok r = true) rules ->
+  wf_otree rules d = true ->
+  resolve s = [ts] -> to_dtree rules ts = o_dtree rules d ->
+  exists t, shape mp (o_dtree rules d) = Some t /\
+    lalr_run mp (postorder (o_dtree rules d)) = Some [t] /\
+    cyk_result rules mp (cnf_of rules d) = Some t /\
+    earley_resolve rules mp s = Some [t].
+Proof.
+  intros Ht Hwf Hr Hd.
+  pose proof (wf_otree_dtree rules mp Ht d Hwf) as Hwd.
+  destruct (shape_total mp _ Hwd) as [t Hs]. exists t. split; [exact Hs|]. split; [|split].
+  - rewrite (lalr_builds_shape mp _ Hwd), Hs. reflexivity.
+  - rewrite (cyk_is_shape rules mp Ht d Hwf). exact Hs.
+  - unfold earley_resolve. rewrite (proj1 (resolve_cb_bridge stree (chain_cb rules mp) Tok pkey) s).
+    fold (resolve s). rewrite Hr. cbn [map all_some].
+    rewrite (EarleyLeg_proofs.eval_chain_shape rules mp ts) by (rewrite Hd; exact Hwd). rewrite Hd, Hs. reflexivity.
+Qed.
+Print Assumptions C03_engines_agree_partial.
+
 (* Non-vacuity: `?a: _x "," [B] c -> no alias`, with an inlined child, a filtered token, an
    untaken placeholder before the last symbol. *)
 Definition ex_rule : rrec :=
@@ -88,8 +171,8 @@ Proof. repeat split; vm_compute; reflexivity. Qed.
 
 Definition ex_x : rrec := mkR "_x" [mkSym true "A" false] None None false false [].
 Definition ex_c : rrec := mkR "c" [] None None false false [].
-Definition ex_deriv : dtree :=
-  DNode ex_rule [DNode ex_x [DTok "A" "a"]; DTok "COMMA" ","; DNode ex_c []].
+Definition ex_deriv : Spec.dtree :=
+  Spec.DNode ex_rule [Spec.DNode ex_x [DTok "A" "a"]; DTok "COMMA" ","; Spec.DNode ex_c []].
 
 Example C03_example_derivation :
   wf_dtree true ex_deriv = true /\
